@@ -29,6 +29,7 @@ class Graph(object):
         self.states = {}
         self.out = collections.defaultdict(list)   # src -> [(label, dst)]
         self.init = None
+        self.inits = []
         self.nedges = 0
         with open(path) as f:
             for line in f:
@@ -48,17 +49,46 @@ class Graph(object):
                         self.states[nid] = parse_state(_unescape(m.group(2)))
                     if m.group(3):
                         self.init = nid
+                        if nid not in self.inits:
+                            self.inits.append(nid)
         if self.init is None:
             raise ValueError("no initial state in " + path)
 
-    def edge_cover(self, is_step=lambda lab: True, limit=None):
+    def reachable_edges(self, init, is_step=lambda lab: True):
+        seen, stack, n = {init}, [init], 0
+        while stack:
+            s = stack.pop()
+            for (l, d) in self._succ(s, is_step):
+                n += 1
+                if d not in seen:
+                    seen.add(d)
+                    stack.append(d)
+        return n
+
+    def all_paths(self, init, is_step=lambda lab: True, cap=100000):
+        """Every maximal path from init (the graph of a terminating program is a DAG), up to cap."""
+        out = []
+        stack = [(init, [])]
+        while stack and len(out) < cap:
+            s, path = stack.pop()
+            succ = self._succ(s, is_step)
+            if not succ:
+                out.append(path)
+                continue
+            for (l, d) in succ:
+                stack.append((d, path + [(l, d)]))
+        return out, not stack
+
+    def edge_cover(self, is_step=lambda lab: True, limit=None, init=None):
         """Paths (lists of (label, dst)) from the initial state that together traverse every edge."""
         covered = set()
-        total = sum(1 for s in self.out for (l, d) in self.out[s] if is_step(l) and not (s == d))
+        init = init or self.init
+        total = self.reachable_edges(init, is_step) if len(self.inits) > 1 else \
+            sum(1 for s in self.out for (l, d) in self.out[s] if is_step(l) and not (s == d))
         paths = []
         # precompute for BFS
         while len(covered) < total:
-            cur = self.init
+            cur = init
             path = []
             progressed = False
             while True:
